@@ -8,7 +8,10 @@ for f in sorted(glob.glob('/verif/seeded/*/meta.json')):
     desc=' '.join(what[:3])[:230].replace('|','/')
     caught=[r['check'] for r in m['check_results'] if r['exit']==1 and r['violation_lines']>0]
     missed=[r['check'] for r in m['check_results'] if not (r['exit']==1 and r['violation_lines']>0)]
-    rows.append("| %s | %s | %s | %s | %s |"%(m['seed'],m['breaks_property'],'yes' if m['confirmed'] else 'NO',', '.join(caught) or '-',', '.join(missed) or '-'))
+    conf='yes' if m['confirmed'] else 'NO'
+    if m.get('neutralised_by_fix'):
+        conf='yes before %s; the demonstration passes since that fix'%m['neutralised_by_fix']
+    rows.append("| %s | %s | %s | %s | %s |"%(m['seed'],m['breaks_property'],conf,', '.join(caught) or '-',', '.join(missed) or '-'))
 print("| seed | property | confirmed | caught by (quick) | not caught by |")
 print("|---|---|---|---|---|")
 print('\n'.join(rows))
